@@ -126,6 +126,9 @@ TEMPLATES = {
     "no-contributors": "{% for c in copyright_lines %}\n{{ c }}\n{% endfor %}\n\n{% for e in spdx_expressions %}\nSPDX-License-Identifier: {{ e }}\n{% endfor %}\n",
     "commented": "/*\n{% for c in copyright_lines %}\n * {{ c }}\n{% endfor %}\n{% for c in contributor_lines %}\n * SPDX-FileContributor: {{ c }}\n{% endfor %}\n *\n{% for e in spdx_expressions %}\n * SPDX-License-Identifier: {{ e }}\n{% endfor %}\n */\n",
 }
+# templates that spell out a licence tag themselves: one whose expression the parser rejects, one that is fine
+TEMPLATES["literal-bad-expression"] = TEMPLATES["no-contributors"] + "SPDX-License-Identifier: MIT OR\n"
+TEMPLATES["literal-bad-expression-first"] = "SPDX-License-Identifier: (ISC\n" + TEMPLATES["adds-text"]
 COMMENTED = {"commented"}
 
 
